@@ -7,7 +7,7 @@ import sys
 import traceback
 
 from .index import Program
-from .report import AnalysisError, Report
+from .report import AnalysisError, DefiniteViolation, Report
 
 ALL = [f"C{n:02d}" for n in range(1, 21)]
 
@@ -37,6 +37,9 @@ def run_property(pid: str, tier: str, only=None, src=None, quiet=False) -> int:
                 # the self-test of the rules is meaningful only on a tree the rules accept
                 from . import selftest
                 selftest.run_for(pid, rep)
+        return rep.finish()
+    except DefiniteViolation as e:
+        e.report(rep)
         return rep.finish()
     except AnalysisError as e:
         # a rule (or a floor) could not decide; definite violations found before that are still reported (exit 1)
